@@ -231,6 +231,11 @@ pub fn text(c: &Case) -> String {
         "typeref" => format!("{}\nTy1 ::= {}\nTy2 ::= Ty1\nval Ty2 ::= {}", c.prelude, c.ty, c.value),
         "valref" => format!("{}\nbase {} ::= {}\nval {} ::= base", c.prelude, c.ty, c.value, c.ty),
         "default" => format!("{}\nHolder ::= SEQUENCE {{ f {} DEFAULT {} }}", c.prelude, c.ty, c.value),
+        // DEFAULT of a component whose type is written inline (composite-value family, inline mode)
+        "default-inline" => {
+            let (defs, top) = c.prelude.rsplit_once("Top ::= ").unwrap_or(("", "NULL"));
+            format!("{defs}\nHolder ::= SEQUENCE {{ f {top} DEFAULT {} }}", c.value)
+        }
         "default-valref" => format!("{}\nbase {} ::= {}\nHolder ::= SEQUENCE {{ f {} DEFAULT base }}", c.prelude, c.ty, c.value, c.ty),
         _ => unreachable!(),
     };
@@ -764,7 +769,7 @@ impl Prop for C07 {
         "C07"
     }
     fn rule(&self) -> String {
-        "(symbolic level + wire level: every value on the direct route and one representative per notation x feature on the other routes (thorough: all) is compiled into the wirecheck workspace, the generated constant / Holder default is encoded by rasn's DER codec and the bytes are compared with the X.690 encoding of the source value computed by a 100-line reference encoder) per value notation, complete inside: integers = the 53-point boundary set ∪ {±2^127 ends} (typed INTEGER, a fitting constrained INTEGER, a named-number type); TRUE/FALSE; NULL; cstrings = all strings of length <=2 over {a, space, \"\" (escaped quote), é, €} restricted to each of the 11 string types' alphabets plus a 40-character string; bstrings = all of length 0..8 (BIT STRING) and all byte-multiples (OCTET STRING); hstrings = all of 0..2 digits, every digit at every position of a 4-digit string, the 64 walking-one patterns; named-bit lists = all 32 subsets of {b0,b1,b3,b7,b15}; named numbers, enumerals; OIDs of 2..4 arcs with every arc form (number, every X.660 well-known name under its root, name(number), leading value reference); CHOICE / SEQUENCE / SEQUENCE OF values to depth 2 (hand-picked, incl. one-member SEQUENCE values that read like OBJECT IDENTIFIER values) and systematically: every type tree of depth <= 2 over {INTEGER, BOOLEAN, NULL} with constructors SEQUENCE of 1..2 members (each required or OPTIONAL), CHOICE of 2 alternatives, SEQUENCE OF (depth 2 over the leaves and 8 depth-1 representatives; 1.3 k trees, thorough 2.4 k), nested types once as type assignments of their own and once inline, × every value with one component varied at a time (each alternative, OPTIONAL present / absent, lists of length 0..2), judged by a reference DER encoder that is generic in the type tree; values the compiler declines with a warning are counted as skipped by warning class; each × route {value assignment, through two type references, via a value reference, DEFAULT, DEFAULT via value reference}. Oracle: a symbolic evaluator of the expression forms the templates emit reduces the initialiser (const, LazyLock static, default fn body) to an abstract value compared with the model's (bit strings from named bits modulo trailing zeros). Non-trivial: compiled cleanly and the initialiser was evaluated.".into()
+        "(symbolic level + wire level: every value on the direct route and one representative per notation x feature on the other routes (thorough: all) is compiled into the wirecheck workspace, the generated constant / Holder default is encoded by rasn's DER codec and the bytes are compared with the X.690 encoding of the source value computed by a 100-line reference encoder) per value notation, complete inside: integers = the 53-point boundary set ∪ {±2^127 ends} (typed INTEGER, a fitting constrained INTEGER, a named-number type); TRUE/FALSE; NULL; cstrings = all strings of length <=2 over {a, space, \"\" (escaped quote), é, €} restricted to each of the 11 string types' alphabets plus a 40-character string; bstrings = all of length 0..8 (BIT STRING) and all byte-multiples (OCTET STRING); hstrings = all of 0..2 digits, every digit at every position of a 4-digit string, the 64 walking-one patterns; named-bit lists = all 32 subsets of {b0,b1,b3,b7,b15}; named numbers, enumerals; OIDs of 2..4 arcs with every arc form (number, every X.660 well-known name under its root, name(number), leading value reference); CHOICE / SEQUENCE / SEQUENCE OF values to depth 2 (hand-picked, incl. one-member SEQUENCE values that read like OBJECT IDENTIFIER values) and systematically: every type tree of depth <= 2 over {INTEGER, BOOLEAN, NULL} with constructors SEQUENCE of 1..2 members (each required or OPTIONAL), CHOICE of 2 alternatives, SEQUENCE OF (depth 2 over the leaves and 8 depth-1 representatives; 1.3 k trees, thorough 2.4 k), nested types once as type assignments of their own and once inline, × every value with one component varied at a time (each alternative, OPTIONAL present / absent, lists of length 0..2), judged by a reference DER encoder that is generic in the type tree; values the compiler declines with a warning are counted as skipped by warning class; each × route {value assignment, through two type references, via a value reference, DEFAULT, DEFAULT via value reference, between lexical neighbours; trees written inline also as DEFAULT of a component of that inline type}. Oracle: a symbolic evaluator of the expression forms the templates emit reduces the initialiser (const, LazyLock static, default fn body) to an abstract value compared with the model's (bit strings from named bits modulo trailing zeros). Non-trivial: compiled cleanly and the initialiser was evaluated.".into()
     }
     fn selftest(&self) -> Result<u64, String> {
         let f: syn::File = syn::parse_str("pub mod m { pub const A: u8 = 5; pub static O1: LazyLock<ObjectIdentifier> = LazyLock::new(|| Oid::const_new(&[1u32, 2u32]).to_owned()); pub static O3: LazyLock<ObjectIdentifier> = LazyLock::new(|| Oid::new(&[&***O1, &[7u32]].concat()).unwrap().to_owned()); pub static B: LazyLock<BitString> = LazyLock::new(|| [true, false].into_iter().collect()); pub static X: LazyLock<OctetString> = LazyLock::new(|| <OctetString as From<&'static [u8]>>::from(&[175, 9])); pub const C3: C = C::c(C2::z(())); pub static I: LazyLock<T2> = LazyLock::new(|| T2(T1(Integer::from(-2i128)))); }").map_err(|e| e.to_string())?;
@@ -1000,7 +1005,8 @@ impl Prop for C07 {
         for c in &base {
             out.push(c.clone());
             let heavy = c.notation.starts_with("bstring") || c.notation.starts_with("hstring") || c.notation.starts_with("cstring") || c.notation == "oid" || c.notation == "int";
-            for r in ["typeref", "valref", "default", "default-valref", "neighbours"] {
+            let routes: Vec<&str> = if c.vt.is_some() && c.feature.ends_with("inline-types") { vec!["typeref", "valref", "default", "default-valref", "neighbours", "default-inline"] } else { vec!["typeref", "valref", "default", "default-valref", "neighbours"] };
+            for r in routes {
                 // every route for every notation; for the big literal families the non-direct routes use a slice in quick
                 if false && heavy && !tier.thorough() {
                     continue;
@@ -1033,6 +1039,8 @@ impl Prop for C07 {
                 let w = warnings.join(" ");
                 let class = if w.contains("A type name is needed") {
                     "declined:value-of-inline-anonymous-type"
+                } else if w.contains("values are currently unsupported") {
+                    "declined:default-of-inline-constructed-type"
                 } else if w.contains("No value for field") {
                     "declined:optional-component-omitted"
                 } else {
